@@ -1224,7 +1224,37 @@ func sameFullName(rt reflect.Type) bool {
 
 // knownShapes: the fault texts (types taken out, see faultShape) each known family was found with. A
 // fault text that is new for its family is a violation.
-var knownShapes = map[string]map[string]bool{}
+var knownShapes = func() map[string]map[string]bool {
+	const (
+		conv   = "reflect.Value.Convert: … cannot be converted"
+		set    = "reflect.Set: … is not assignable"
+		setMap = "reflect.Value.SetMapIndex: … is not assignable"
+		zeroT  = "reflect: call of reflect.Value.Type on zero Value"
+		zeroS  = "reflect: call of reflect.Value.Set on zero Value"
+		unaddr = "reflect: reflect.Value.Set using unaddressable value"
+		newNil = "reflect: New(nil)"
+		nilMap = "assignment to entry in nil map"
+		nilPtr = "runtime error: invalid memory address or nil pointer dereference"
+		iconv  = "interface conversion"
+	)
+	mk := func(xs ...string) map[string]bool {
+		m := map[string]bool{}
+		for _, x := range xs {
+			m[x] = true
+		}
+		return m
+	}
+	return map[string]map[string]bool{
+		"C06rec-mismatch-fault":             mk(conv, set, zeroS, nilPtr, iconv),
+		"C06rec-unsupported-type":           mk(conv, set, setMap, zeroS, nilPtr, iconv),
+		"C06rec-odd-target":                 mk(conv, set, setMap, zeroT, zeroS, unaddr, newNil, nilPtr, iconv),
+		"C06rec-zero-recomposer":            mk(nilMap, conv, set, setMap, zeroT, zeroS, unaddr, nilPtr, iconv),
+		"C06rec-composer-answer":            mk(conv, set, setMap, zeroT, zeroS, nilPtr, iconv),
+		"C06rec-createkey-unmarshaler-name": mk(newNil, conv, set, setMap, nilPtr, iconv),
+		"C06rec-composer-map-key":           mk(nilPtr),
+		"C06rec-any-composer-unguarded":     mk(set, conv),
+	}
+}()
 
 // knownFault names the known family a surfaced fault belongs to, or "".
 func knownFault(c *recCase, tree any, def bool) string {
@@ -1404,6 +1434,9 @@ func (ch *recChild) runCase(c *recCase) {
 			}
 			if _, has := c.anys[nil]; has {
 				id = "C06rec-composer-map-key"
+			}
+			if id != "" && !knownShapes[id][faultShape(p.o.text())] {
+				id = ""
 			}
 			if id != "" && lib.HasKnown(knownList, id) {
 				ch.counts["known."+id]++
